@@ -93,7 +93,7 @@ func runThrottled(c *Ctx, sh *shared, dir string) {
 		return
 	}
 	defer func() { a.Stop(); a.KillStrays() }()
-	if !waitPing(a.Sock, b.ID, 30*time.Second) {
+	if !waitPing(a.Sock, b.ID, 90*time.Second) {
 		fail("node A never reaches node B", "harness-mesh")
 		return
 	}
